@@ -276,7 +276,8 @@ class SplitFramingTask(Task):
             except PyRaise as pr:
                 I.ob(f"{P}/a-well-formed-list-is-split-without-an-exception", False, detail=repr(pr.exc))
             return
-        I.ob(f"{P}/the-generator-ends-exactly-after-the-last-item", g.get("exit_k", z3.IntVal(0)) == n)
+        # the generator is exhausted (the loop guard failed, or the body returned): the index it had reached
+        I.ob(f"{P}/the-generator-ends-exactly-after-the-last-item", g.get("k", z3.IntVal(0)) == n)
 
 
 # ---------------------------------------------------------------------------------------------
